@@ -633,8 +633,9 @@ func (f *field) pattern() string {
 				esc = false
 			}
 			for {
-				// also what is special inside a bracket expression
-				i := strings.IndexAny(s, `?*[\]!^-`)
+				// also what is special inside a bracket expression, the
+				// characters that open and close a class included
+				i := strings.IndexAny(s, `?*[\]!^-:=.`)
 				if i == -1 {
 					b.WriteString(s)
 					break
